@@ -392,7 +392,7 @@ func concWG(r *vx.Rng, st *vx.Stats) {
 	c.report(st, ok && waited, fmt.Sprintf("after Done of every element: pending=%d triggered=%v Wait returned=%v", w.PendingElements().Size(), w.WasTriggered(), waited))
 }
 
-func concAll(r *vx.Rng, st *vx.Stats, runs int) {
+func concAll(r, rFresh *vx.Rng, st *vx.Stats, runs, fresh int) {
 	// directed schedules for the two repaired defects first
 	if fin, pending, trig := wgDupDirected(5 * time.Second); !(fin && pending == 0 && trig) {
 		st.Fail(map[string]any{"sig": "", "kind": "directed-D14c", "why": fmt.Sprintf("WaitGroup{1}: Add(1) stopped after the duplicate check | Done(1) | Add resumes: finished=%v pending=%d triggered=%v (the set became empty, the group must trigger)", fin, pending, trig)})
@@ -412,6 +412,12 @@ func concAll(r *vx.Rng, st *vx.Stats, runs int) {
 	if e, lost := wgDupRace(2000); lost > 0 {
 		st.Fail(map[string]any{"sig": "", "kind": "race-D14c", "why": fmt.Sprintf("WaitGroup{1}: Add(1) || Done(1): %d of %d runs ended empty and untriggered", lost, e)})
 	}
+	// first-use races on fresh objects (fresh.go): about 1 s per 4000 rounds, wall limit 1 s + 1 s per 1000 rounds, <= 30 s
+	wall := time.Duration(1+fresh/1000) * time.Second
+	if wall > 30*time.Second {
+		wall = 30 * time.Second
+	}
+	freshFirstUse(rFresh, st, fresh, wall)
 	for i := 0; i < runs; i++ {
 		concDV(r.Fork(), st)
 		concSN(r.Fork(), st)
